@@ -3,6 +3,7 @@
 package c11
 
 import (
+	"encoding/json"
 	"fmt"
 	"go/ast"
 	"go/parser"
@@ -304,6 +305,14 @@ func TestPropLaws(t *testing.T) { rapid.Check(t, prop) }
 
 func TestReplay(t *testing.T) {
 	known.RunWitnesses(t, "C11", func(t h.TB, w known.Witness) {
+		if w.Sub == "Entries" {
+			var ec EntryCase
+			if err := json.Unmarshal(w.Case, &ec); err != nil {
+				t.Fatalf("harness: witness %s: %v", w.Name, err)
+			}
+			checkEntries(t, ec)
+			return
+		}
 		check("Witness")(t, Case{Src: w.Input, Resolver: true})
 	})
 	known.RunRegressions(t, "C11")
